@@ -38,15 +38,19 @@ Report(f) == IF f = {} THEN TRUE ELSE PrintT(<<"VIOL", l, E.ev, f>>) /\ TLCSet(1
 
 Finish(s) == IF l + 1 <= Len(Rec) THEN TRUE ELSE PrintT(<<"STATS", ToJson(s)>>)
 
-\* consume the event: report failed tags, count, advance
-Done(ts, keys) ==
+\* consume the event: report failed tags, count, advance.  The model always follows the SPECIFICATION's
+\* outcome, so value mismatches never stop validation; only when the implementation's control flow left
+\* the specification's (diverged: different result kind, a panic, a missing draw) is the rest of the
+\* scenario skipped up to the next reset - the objects the harness went on with no longer correspond.
+DoneK(ts, keys, diverged) ==
     LET f == Fails(ts)
         s == Bump(stat, keys \cup {"events"} \cup (IF f = {} THEN {} ELSE {"violations"}))
     IN /\ Report(f)
-       /\ bad' = (f # {})
+       /\ bad' = diverged
        /\ stat' = s
        /\ l' = l + 1
        /\ Finish(s)
+Done(ts, keys) == DoneK(ts, keys, FALSE)
 
 \* the same for an event of a stateless (pure) function: a failure does not poison later events
 DonePure(ts, keys) ==
